@@ -102,7 +102,7 @@ THk == /\ Is("Hk")
 TPend == Is("Pend") /\ Timed(Pend(E.c, E.k))
 THLive == Is("HLive") /\ Timed(HLive(E.h, E.k, E.res, E.x))
 TCReg == Is("CReg") /\ Timed(CRegN(E.n))
-TQuiesce == Is("Quiesce") /\ Timed(Quiesce(E.n, E.c))
+TQuiesce == Is("Quiesce") /\ Timed(Quiesce(E.n, E.c, E.h \div 1000, E.h % 1000))
 
 \* Crash, Wedged and Leak lines have no action: a trace containing one is rejected.
 
